@@ -7,6 +7,9 @@ D="$(cd "$(dirname "$0")/.." && pwd)"
 S=/var/tmp/vmut-$$
 rm -rf $S; mkdir -p $S; cp -r /repo/src /repo/.git $S/ 2>/dev/null
 ( cd $S && git checkout -q -- . 2>/dev/null; git apply $REV "$P" ) || { echo "patch failed"; rm -rf $S; exit 3; }
-VERIF_REPO=$S VERIF_OUT=$S/out "$D/check" "$PROP" --tier "$TIER"; RC=$?
+# a private copy of the Lean project: the run regenerates Phil/Generated/Tables.lean from the patched tree and may
+# leave failed builds behind; neither must leak into /verif/lean (checks may be running there concurrently)
+cp -r "$D/lean" $S/lean
+VERIF_LEAN=$S/lean VERIF_REPO=$S VERIF_OUT=$S/out "$D/check" "$PROP" --tier "$TIER"; RC=$?
 rm -rf $S
 exit $RC
